@@ -96,7 +96,7 @@ func vfC15RunPool(c *vt.Ctx, s vfC15PoolScenario) {
 	}
 }
 
-func TestVerifC15PoolConfig(t *testing.T) { vt.Run(t, vfC15GenPool, vfC15RunPool) }
+func TestVerifC15PoolConfig(t *testing.T) { vt.Run(t, vfC15GenPool, g.NoPanic(vfC15RunPool)) }
 
 // ---------------------------------------------------------------------------------
 // stored records
@@ -301,7 +301,7 @@ func vfC15RunRec(c *vt.Ctx, s vfC15RecScenario) {
 	_ = svc.gcPods(ctx)
 }
 
-func TestVerifC15StoredRecords(t *testing.T) { vt.Run(t, vfC15GenRec, vfC15RunRec) }
+func TestVerifC15StoredRecords(t *testing.T) { vt.Run(t, vfC15GenRec, g.NoPanic(vfC15RunRec)) }
 
 // ---------------------------------------------------------------------------------
 // ruleSync behind its link look-ups: the case runs in a fresh network namespace that
@@ -448,4 +448,4 @@ func TestVerifC15KnownWitnessStoredRecords(t *testing.T) {
 	}
 }
 
-func TestVerifC15RuleSync(t *testing.T) { vt.Run(t, vfC15GenRule, vfC15RunRule) }
+func TestVerifC15RuleSync(t *testing.T) { vt.Run(t, vfC15GenRule, g.NoPanic(vfC15RunRule)) }
